@@ -1,6 +1,7 @@
 import Treepath.Proofs.MutateLemmas
 import Treepath.Proofs.NaturalNext
 import Treepath.Proofs.AllocUnf
+import Treepath.Proofs.RefoldApi
 /- C08 — set_ assigns exactly one slot, or fails without a trace -/
 namespace Treepath.C08
 
@@ -131,5 +132,57 @@ theorem loaded_document_meets_the_premise (h : Heap) (j : J) : Unf (allocJ h j).
 
 /-- non-vacuity, computed: a two-level document -/
 example : (match (allocJ #[] (.obj [("a", .arr [.int 1]), ("b", .null)])).2 with | .ref 1 => true | _ => false) = true := by decide
+
+/-! ### `set_` as an update of the JSON tree (refinement of the object store to `Spec/TreeWrite`) -/
+
+/-- **exactly one slot, said on the tree**: on a document that is a tree (`DocInv`: it unfolds
+to `j`, no container object is reachable along two paths, dict keys are unique), a successful
+non-cascading `set_` of a value `v ~ jv` that shares no object with the document makes the
+document unfold to `J.setAt j pm.loc nm jv` — `j` with `jv` under the last name inside the
+node at the location of the first match `pm` of the parent path, every other part of `j` as it
+was — and the document is again such a tree. -/
+theorem set_is_one_tree_update (stepsOf : Heap → List (Step Val)) (root : Val) (j jv : J) (n : Nat) (h h' : Heap)
+    (v : Val) (m : MNode Val) (hi : DocInv h root j)
+    (hv : UnfJ h jv v) (hvn : (fpJ h jv v).Nodup) (hfresh : ∀ x ∈ fpJ h jv v, x ∉ fpJ h j root)
+    (hset : setMatchN stepsOf (.doc root) false (n+1) h v = (h', .ok m)) :
+    ∃ pm nm j', m = .child pm nm v ∧ J.setAt j pm.loc nm jv = some j' ∧ DocInv h' root j' := by
+  obtain ⟨pm, nm, j', e1, _, e2, e3, _⟩ := setMatch_refines stepsOf root j jv n h h' v m hi hv hvn hfresh hset
+  exact ⟨pm, nm, j', e1, e2, e3⟩
+
+/-- … and that location is the location of the *definition's* first result for the parent
+path on the tree `j` (naturality of the traverser + genuineness of its matches) -/
+theorem set_updates_the_definitions_location (stepsOf : Heap → List (Step Val)) (root : Val) (j jv : J) (n : Nat)
+    (h h' : Heap) (v : Val) (m : MNode Val) (hi : DocInv h root j)
+    (hv : UnfJ h jv v) (hvn : (fpJ h jv v).Nodup) (hfresh : ∀ x ∈ fpJ h jv v, x ∉ fpJ h j root)
+    (sb : Array (Step J)) (hsteps : LRel (StepRel (Unf h)) ((stepsOf h).take n) sb.toList) (hp : PredsClean sb)
+    (hset : setMatchN stepsOf (.doc root) false (n+1) h v = (h', .ok m)) :
+    ∃ pm' nm j', (evalE sb.toList (.root j)).1.head? = some pm' ∧ J.setAt j pm'.loc nm jv = some j' ∧
+      DocInv h' root j' := by
+  obtain ⟨pm, nm, j', _, hg, e2, e3, _⟩ := setMatch_refines stepsOf root j jv n h h' v m hi hv hvn hfresh hset
+  obtain ⟨pm', hrel, hhead⟩ := getMatch_heap_found h root j hi.unf ((stepsOf h).take n).toArray sb (by simpa using hsteps) hp true pm hg
+  exact ⟨pm', nm, j', hhead, by rw [← hrel.loc]; exact e2, e3⟩
+
+/-- assigning a JSON value (loaded into the store by the call): only unique keys are assumed of it -/
+theorem set_of_a_json_value (stepsOf : Heap → List (Step Val)) (root : Val) (j jv : J) (n : Nat) (h h' : Heap)
+    (m : MNode Val) (hi : DocInv h root j) (hjv : jv.WFK)
+    (hset : setMatchN stepsOf (.doc root) false (n+1) (allocJ h jv).1 (allocJ h jv).2 = (h', .ok m)) :
+    ∃ pm nm j', m = .child pm nm (allocJ h jv).2 ∧ J.setAt j pm.loc nm jv = some j' ∧ DocInv h' root j' :=
+  set_fresh_refines stepsOf root j jv n h h' m hi hjv hset
+
+/-- a loaded JSON document (unique keys per object) is such a tree -/
+theorem loaded_document_is_a_tree (j : J) (hj : j.WFK) : DocInv (allocJ #[] j).1 (allocJ #[] j).2 j :=
+  loaded_inv j hj
+
+/-- **histories**: any sequence of `set_` (of JSON values) and `pop` operations, successful or
+not, keeps the document a tree — aliasing never appears, so the one-slot theorems apply at
+every step -/
+theorem histories_keep_the_document_a_tree (root : Val) (ops : List WOp) (hops : ∀ op ∈ ops, op.valuesWF)
+    (h : Heap) (j : J) (hi : DocInv h root j) : ∃ j', DocInv (ops.foldl (WOp.run root) h) root j' :=
+  Treepath.histories_keep_the_document_a_tree root ops hops h j hi
+
+/-- the tree-level update, computed: `set_(path.a[1], 5, {"a": [1], "b": null})` -/
+example : J.setAt (.obj [("a", .arr [.int 1]), ("b", .null)]) [.key "a"] (.idx 1) (.int 5)
+    = some (.obj [("a", .arr [.int 1, .int 5]), ("b", .null)]) := by
+  simp [J.setAt, J.updateAt, childAt, J.view, List.lookup, J.setName, normIndex, J.putChild, kvsSet]
 
 end Treepath.C08
